@@ -230,11 +230,16 @@ def replay(path):
 def run(tier="quick", seed=0, jobs=16):
     rep = Report("C15", tier, seed, "proof")
     rep.assumptions = [ASSUMPTIONS["A1"], ASSUMPTIONS["A2"], ASSUMPTIONS["A4"], vin.describe(),
-                       "unit nesting used to classify arguments: bg within fg within hh, bg within wthh within hh (C17), eg within fg within hh (VALID: Einstandspartner share a household), sn within ehe (C12 postconditions)",
+                       "unit nesting used to classify arguments: bg within fg within hh, bg within wthh within hh (C17), eg within fg within hh (VALID: Einstandspartner share a household), eg within bg (VALID: a person with an Einstandspartner is not a self-supporting child under 25; bg_id_numpy P1), sn within ehe (C12 postconditions)",
                        "aggregation nodes are constant per group by the C11 contract (out[i] depends on gid[i] only)"]
     rep.trusted = ["z3 5.1.0 / cvc5 1.4.0", "E1 encoder", "dags graph construction"]
     since = rules.D2015 if tier == "quick" else None
     classes = [c[0] for c in venv.date_classes(since=since, until=venv.last_parameter_date())]
+    if tier == "quick":
+        # before 2015: one representative per set of active rule implementations (the obligation is about
+        # which columns a rule reads; parameters enter only through constants)
+        early = [c if isinstance(c, datetime.date) else c[0] for c in venv.function_set_classes()]
+        classes = sorted(set(classes) | {c for c in early if c < rules.D2015})
     results = par.pmap(_worker, par.chunks(classes, jobs), jobs)
     items = {}
     n_nodes = 0
@@ -256,6 +261,35 @@ def run(tier="quick", seed=0, jobs=16):
                     rep.violation(f"{it['node']}({w['arg']})", f"{it['node']} takes the individual-level argument {w['arg']}: two members of one {it['group']} with {w['arg']}={w['member1'][w['arg']]} / {w['member2'][w['arg']]} get {vals}", {"date": it["date"], "node": it["node"], "group": it["group"], "witness": w, "obligation": it["name"]}, failing_input_found=bool(bad))
             else:
                 rep.violation(it["name"], it["detail"], {"obligation": it["name"], "date": it["date"]}, True)
+    # KN: the unit nesting used above rests on the contract of bg_id_numpy (bg within fg: P2; partners, who
+    # share the fg and under VALID are not split-off children, share the bg: P1). Modularity: a change
+    # inside bg_id_numpy is visible here only through that contract, so it is discharged here as well.
+    import z3
+
+    from props import C12 as c12
+    from vt import kernels
+
+    try:
+        vcs, info = kernels.verification_conditions("bg_id_numpy")
+        lostk = []
+        for oname, status, backend, secs, reason in kernels.discharge(vcs, 30):
+            rep.ob("KN " + oname, status, backend, secs, info["where"], "vc", reason)
+            if status != "discharged":
+                lostk.append(oname)
+        if lostk:
+            ne, nd, badk = c12._bounded_bg_wthh(3)
+            badk = [b for b in badk if b["kernel"] == "bg_id_numpy"]
+            if badk:
+                rep.undecided = [u for u in rep.undecided if not u.startswith("KN ")]
+                rep.violation("bg_id_numpy:contract", f"the needs-unit contract the nesting eg/bg/fg rests on does not hold: bg_id_numpy on {badk[0]['inputs']} gives {badk[0]['got']} (persons who are not split-off children under 25 are separated from their family unit, so _bg columns read by _eg / _fg rules differ within the group)", {"obligation": lostk[0], **badk[0]}, True)
+    except kernels.Unsupported as ex:
+        rep.ob("KN bg_id_numpy: contract binds to the code", "unsupported", "E2", 0, "src/_gettsim/groupings.py", "binding", str(ex))
+    fi, fj, ri, rj = z3.Ints("fg_i fg_j bg_i bg_j")
+    si, sj, same = z3.Bools("split_i split_j same_person")
+    p1 = (ri == rj) == z3.And(fi == fj, z3.Or(same, z3.And(z3.Not(si), z3.Not(sj))))
+    r = solve.check([p1, fi == fj, z3.Not(si), z3.Not(sj), ri != rj], 10)
+    rep.ob("KN lemma: two partners (same fg by the fg contract, neither a split-off child by VALID) have the same bg_id, from postcondition P1 of bg_id_numpy", {"unsat": "discharged", "sat": "refuted"}.get(r.status, "unknown"), r.backend, r.seconds, "contracts/groupings.py bg_contract", "lemma")
+    rep.functions.add("src/_gettsim/groupings.py:18 bg_id_numpy (by contract)")
     # IN: the classification above treats group-suffixed INPUT columns as constant within the unit;
     # that is what the real input check guarantees -- for every grouping, not only hh
     import pandas as pd
